@@ -158,7 +158,8 @@ func menu(t tlog.Tile, reduced bool) []menuItem {
 		}
 		m = append(m, menuItem{"flip", j * tlog.HashSize * 8}, menuItem{"flip", j*tlog.HashSize*8 + 255}, menuItem{"slot<-leaf0", j}, menuItem{"slot<-root", j}, menuItem{"slot<-zero", j})
 		if j+1 < t.W {
-			m = append(m, menuItem{"swap", j}, menuItem{"dup", j}, menuItem{"slot<-parenthash", j})
+			m = append(m, menuItem{"swap", j}, menuItem{"dup", j}, menuItem{"slot<-parenthash", j},
+				menuItem{"fold-zero", j}, menuItem{"fold-last", j}, menuItem{"fold-leaf0", j})
 		}
 		if j > 0 {
 			m = append(m, menuItem{"slot<-prev", j})
@@ -200,6 +201,29 @@ func corrupt(r *reader, tiles []tlog.Tile, cur [][]byte, f faultT) ([]byte, erro
 		copy(b[:], slot(f.Arg+1))
 		p := tlog.NodeHash(a, b)
 		copy(slot(f.Arg), p[:])
+	case "fold-zero", "fold-last", "fold-leaf0":
+		// structure-changing forgery: two neighbouring hashes are replaced by their parent, the rest moves
+		// one slot to the left, and the freed last slot is filled (zero hash, copy of the last hash, leaf 0):
+		// the tile has the same width but describes a tree of another shape with the same fold
+		j := f.Arg
+		if (j+2)*hs <= len(d) {
+			var a, b tlog.Hash
+			copy(a[:], slot(j))
+			copy(b[:], slot(j+1))
+			p := tlog.NodeHash(a, b)
+			w := len(d) / hs
+			last := append([]byte(nil), slot(w-1)...)
+			copy(slot(j), p[:])
+			copy(d[(j+1)*hs:], d[(j+2)*hs:])
+			switch f.Kind {
+			case "fold-zero":
+				copy(slot(w-1), make([]byte, hs))
+			case "fold-last":
+				copy(slot(w-1), last)
+			default:
+				copy(slot(w-1), r.lg.Ref.Leaves[0][:])
+			}
+		}
 	case "trunc-byte":
 		d = d[:len(d)-1]
 	case "trunc-hash":
